@@ -1513,6 +1513,8 @@ def run(chk, cases=None):
         if rel and out == "violation":
             any_concrete_unknown = True
     source_tie(chk, cases, results)
+    from props.c20_tie import source_tieB      # second tie: MultiHeadedAttention, ConcatSoftAttention
+    source_tieB(chk, cases, results)
     return bad
 
 
